@@ -20,6 +20,8 @@
     code_takes_mtime_of_opened_file stat_after_open_serves_stale
     load_outcome_is_first_on_path reload_current_full_iff_noshadow
     reload_current_noshadow_racing_partial mtime_reuse_serves_stale
+    pathload_outcome_is_first_on_path pathload_failed_load_is_noop pathload_cache_keys_unique
+    pathload_touches_only_its_key pathload_uptodate_none_always_reloads inplace_rewrite_is_noticed
 -/
 import Genshi.Lemmas.Lru
 import Genshi.Lemmas.LruAbs
@@ -29,6 +31,7 @@ import Genshi.Lemmas.Loader
 import Genshi.Lemmas.LoaderLru
 import Genshi.Lemmas.LoaderRace
 import Genshi.Gen.Loader
+import Genshi.Lemmas.LoaderPath
 namespace Genshi.Props.C15
 open Genshi.Lru
 variable {K V : Type} [DecidableEq K]
@@ -611,5 +614,157 @@ example : (arun (aempty 0 : ALru Nat Nat) [.set 0 10, .len, .get 0]).2 =
     [.unit, .nat 0, .keyError] := by decide
 example : (astep (⟨2, [(1, 11), (0, 10)]⟩ : ALru Nat Nat) (.set 2 12)).1.items = [(2, 12), (1, 11)] := by
   decide
+
+
+/-! ## the loader over string-level path names (`Genshi/Model/LoaderPath.lean`)
+
+  `posixpath.normpath` / `join` / `dirname` / `isabs` on character lists (any depth, `.`, `..`,
+  repeated slashes), search-path items = directory names, callables returning
+  `(filepath, filename, fileobj, uptodate)` (mtime check or `None`, own `filename`), and
+  `prefixed(**delegates)`.  The theorems hold for every path name, search path and file system. -/
+section LoaderPath
+open Genshi.LoaderP
+
+/-- `load_outcome_is_first_on_path` for the deep path algebra, every kind of search-path item
+    included: a load that is not answered from the cache ends exactly as the walk over the
+    search path of that call says (`firstOnPathF`: an item that does not have the name — IOError,
+    `prefixed()`'s TemplateNotFound, no such file — is passed over; any other exception ends the
+    walk): no search path; TemplateNotFound; the load function's exception; for the file found
+    first its syntax error, the callback's exception, or the template parsed from its current
+    content, with a fresh identity, the `filepath` the item returned and the `filename` it
+    reported (the `filepath` when the name or `relative_to` is absolute). -/
+theorem pathload_outcome_is_first_on_path (cfg : LoaderP.Cfg) (fs : LoaderP.FS) (s : LoaderP.LState)
+    (r : LoaderP.Req)
+    (hno : alookup (LoaderP.resolve cfg.path.isEmpty r) s.cache.items = none ∨
+      (cfg.autoReload = true ∧ LoaderP.stillCurrent fs s (LoaderP.resolve cfg.path.isEmpty r) = false)) :
+    let key := LoaderP.resolve cfg.path.isEmpty r
+    let res := (LoaderP.load cfg fs s r).2
+    (LoaderP.searchPath cfg r key = none ∧ res = .err .noSearchPath) ∨
+    ∃ entries isabs, LoaderP.searchPath cfg r key = some (entries, isabs) ∧
+      match LoaderP.firstOnPathF fs r.fault key entries with
+      | .nothing => res = .err .notFound
+      | .raised => res = .err .loadFunc
+      | .file fp name f =>
+        (f.bad = true ∧ res = .err .syntaxError) ∨
+        (f.bad = false ∧ cfg.hasCallback = true ∧ r.cbRaise = true ∧ res = .err .callback) ∨
+        (f.bad = false ∧ res = .ok ⟨s.nextObj, fp, if isabs then fp else name, f.content, r.cls, r.enc⟩) :=
+  LoaderP.load_by_firstF cfg fs s r hno
+
+/-- A failed load (whatever the path item that failed: directory, callable, `prefixed()`)
+    changes neither the mapping of the cache nor `_uptodate` nor the lock; the lookup of a cached
+    key still counts as a use. -/
+theorem pathload_failed_load_is_noop (cfg : LoaderP.Cfg) (fs : LoaderP.FS) (s : LoaderP.LState)
+    (r : LoaderP.Req) (e : Genshi.Loader.Err) (h : (LoaderP.load cfg fs s r).2 = .err e) :
+    (LoaderP.load cfg fs s r).1.cache = (LoaderP.touched s (LoaderP.resolve cfg.path.isEmpty r)).cache ∧
+    (∀ k, alookup k (LoaderP.load cfg fs s r).1.cache.items = alookup k s.cache.items) ∧
+    (LoaderP.load cfg fs s r).1.utd = s.utd ∧ (LoaderP.load cfg fs s r).1.lock = s.lock ∧
+    (LoaderP.load cfg fs s r).1.nextObj - s.nextObj ≤ 1 := by
+  have he := LoaderP.load_effect cfg fs s r
+  obtain ⟨hc, hu⟩ := he.failed e h
+  refine ⟨hc, ?_, hu, he.lock, ?_⟩
+  · intro k
+    rw [hc]
+    unfold LoaderP.touched
+    cases hl : alookup (LoaderP.resolve cfg.path.isEmpty r) s.cache.items with
+    | none => rfl
+    | some v =>
+      simp only [astep, hl]
+      by_cases hk : LoaderP.resolve cfg.path.isEmpty r = k
+      · subst hk; simp [alookup, hl]
+      · simp only [alookup, hk, ↓reduceIte]
+        exact Genshi.Loader.alookup_aerase_ne (fun h => hk h.symm)
+  · rcases he.counters with ⟨h1, _, _⟩ | ⟨h1, _, _⟩ <;> omega
+
+/-- Cache-key uniqueness: after every history of writes, touches, deletions and loads — with
+    any mixture of directories, callables and `prefixed()` items, relative and absolute names —
+    no key is cached twice and the cache is within its bound. -/
+theorem pathload_cache_keys_unique (cfg : LoaderP.Cfg) (ops : List LoaderP.HOp) :
+    (akeys (LoaderP.hrun cfg (LoaderP.World.init cfg.cap) ops).1.ls.cache.items).Nodup ∧
+    (LoaderP.hrun cfg (LoaderP.World.init cfg.cap) ops).1.ls.cache.items.length ≤
+      (LoaderP.hrun cfg (LoaderP.World.init cfg.cap) ops).1.ls.cache.cap := by
+  have h := LoaderP.hrun_awf cfg (LoaderP.World.init cfg.cap) ops (aempty_awf cfg.cap)
+  exact ⟨h.2, h.1⟩
+
+-- non-vacuity: a search path of a `prefixed()` item and a directory; files `/a/t` (content 7),
+-- `/b/t` (content 8, served under the prefix `p`) and a file that does not parse
+def exFs : LoaderP.FS := fun p =>
+  if p = ['/', 'a', '/', 't'] then some ⟨7, false, 1⟩
+  else if p = ['/', 'b', '/', 't'] then some ⟨8, false, 2⟩
+  else if p = ['/', 'a', '/', 'x'] then some ⟨9, true, 3⟩ else none
+def exCfg : LoaderP.Cfg := ⟨[.prefixed [(['p'], .dir ['/', 'b'])], .dir ['/', 'a', '/', '.', '/']], true, 2, true⟩
+-- `s/../t` is the key `t`; the prefixed item does not have it, the directory does
+example : (LoaderP.load exCfg exFs (LoaderP.LState.init 2) { filename := ['s', '/', '.', '.', '/', 't'] }).2 =
+    .ok ⟨0, ['/', 'a', '/', '.', '/', 't'], ['t'], 7, 0, 0⟩ := by decide
+-- `p//t` goes to the delegate of the prefix `p` with the name `t`; `filename` stays `p/t`
+example : (LoaderP.load exCfg exFs (LoaderP.LState.init 2) { filename := ['p', '/', '/', 't'] }).2 =
+    .ok ⟨0, ['/', 'b', '/', 't'], ['p', '/', 't'], 8, 0, 0⟩ := by decide
+-- an absolute `relative_to` with a search path: the name is not joined (key `../b/t`), the
+-- directory `/b` is appended, the first item that has `../b/t` is `/a/./`, names are absolute
+example : (LoaderP.load exCfg exFs (LoaderP.LState.init 2)
+      { filename := ['.', '.', '/', 'b', '/', 't'], relTo := some ['/', 'b', '/', 'i'] }).2 =
+    .ok ⟨0, ['/', 'a', '/', '.', '/', '.', '.', '/', 'b', '/', 't'], ['/', 'a', '/', '.', '/', '.', '.', '/', 'b', '/', 't'], 8, 0, 0⟩ := by decide
+-- failures: nothing found / a file that does not parse; the state is as before
+example : (LoaderP.load exCfg exFs (LoaderP.LState.init 2) { filename := ['q'] }).2 = .err .notFound ∧
+    (LoaderP.load exCfg exFs (LoaderP.LState.init 2) { filename := ['x'] }).2 = .err .syntaxError ∧
+    (LoaderP.load exCfg exFs (LoaderP.LState.init 2) { filename := ['x'] }).1.cache.items = [] := by decide
+-- two spellings of one name share one cache entry; a third name makes two entries
+example : ((LoaderP.hrun exCfg ⟨exFs, 5, LoaderP.LState.init 2⟩
+      [.load { filename := ['t'] }, .load { filename := ['.', '/', 's', '/', '.', '.', '/', 't'] },
+       .load { filename := ['p', '/', 't'] }]).1.ls.cache.items.map (·.1)) = [['p', '/', 't'], ['t']] := by decide
+
+/-- … and a load touches the entry of its own key only — the normalised name
+    `normpath(join(dirname(relative_to), filename))` — whatever path item delivers the file and
+    whatever `filename` that item reports: what is cached under any other key afterwards was
+    cached under it before (it can only disappear, as the least recently used entry). -/
+theorem pathload_touches_only_its_key (cfg : LoaderP.Cfg) (fs : LoaderP.FS) (s : LoaderP.LState)
+    (r : LoaderP.Req) (k : LoaderP.Key) (t : LoaderP.Tmpl)
+    (hk : k ≠ LoaderP.resolve cfg.path.isEmpty r)
+    (h : alookup k (LoaderP.load cfg fs s r).1.cache.items = some t) :
+    alookup k s.cache.items = some t :=
+  LoaderP.load_other_key cfg fs s r k t hk h
+
+/-- The `uptodate` half of the callable contract: a template delivered with `uptodate=None`
+    (what `package()` returns) is never considered current — with automatic reloading every load
+    of its key walks the search path again, so `pathload_outcome_is_first_on_path` applies to it
+    (it always reflects the current content; it is parsed on every load). -/
+theorem pathload_uptodate_none_always_reloads (cfg : LoaderP.Cfg) (har : cfg.autoReload = true)
+    (fs : LoaderP.FS) (s : LoaderP.LState) (r : LoaderP.Req)
+    (hu : s.utd (LoaderP.resolve cfg.path.isEmpty r) = some .never) :
+    alookup (LoaderP.resolve cfg.path.isEmpty r) s.cache.items = none ∨
+      (cfg.autoReload = true ∧ LoaderP.stillCurrent fs s (LoaderP.resolve cfg.path.isEmpty r) = false) := by
+  right
+  exact ⟨har, by simp [LoaderP.stillCurrent, hu]⟩
+
+-- a callable without an up-to-date check: the second load parses again (identity 1), also when
+-- nothing changed
+example : ((LoaderP.hrun ⟨[.fn ['/', 'a'] false true], true, 2, true⟩ ⟨exFs, 5, LoaderP.LState.init 2⟩
+      [.load { filename := ['t'] }, .load { filename := ['t'] }]).2) =
+    [some (.ok ⟨0, ['/', 'a', '/', 't'], ['@', 't'], 7, 0, 0⟩), some (.ok ⟨1, ['/', 'a', '/', 't'], ['@', 't'], 7, 0, 0⟩)] := by decide
+
+/-- **A file rewritten in place while it is being read** (content new / time old; open end 2):
+    `directory()` — and any callable that takes the time right after `open` — remembers the
+    modification time the file had before the rewrite, the template class then reads the new
+    content.  The load returns the new content, and with automatic reloading the entry it stores
+    is not current afterwards (the file's time has moved on; `f.mtime < w.clock`: every
+    modification gets a new time): the next load of the key is decided by the walk over the
+    search path again (`pathload_outcome_is_first_on_path` applies), so the mismatch between the
+    remembered time and the parsed content can never make the loader serve stale content. -/
+theorem inplace_rewrite_is_noticed (cfg : LoaderP.Cfg) (w : LoaderP.World) (r : LoaderP.Req)
+    (c : Nat) (b : Bool) (p : LoaderP.Str) (f : Genshi.Loader.File) (t : LoaderP.Tmpl)
+    (hopen : LoaderP.wouldOpen cfg w.fs w.ls r = some p) (hf : w.fs p = some f)
+    (hfresh : f.mtime < w.clock)
+    (hres : (LoaderP.hstepW cfg w (.loadRewrite r c b)).2 = some (.ok t)) :
+    t.content = c ∧ (LoaderP.hstepW cfg w (.loadRewrite r c b)).1.fs p = some ⟨c, b, w.clock⟩ ∧
+    LoaderP.stillCurrent (LoaderP.hstepW cfg w (.loadRewrite r c b)).1.fs
+      (LoaderP.hstepW cfg w (.loadRewrite r c b)).1.ls (LoaderP.resolve cfg.path.isEmpty r) = false :=
+  LoaderP.inplace_noticed cfg w r c b p f t hopen hf hfresh hres
+
+-- `/a/t` (content 7, time 1) is rewritten with content 70 while the first load reads it: that
+-- load returns 70 and remembers time 1; the file now has time 5, so the second load parses again
+example : ((LoaderP.hrunW ⟨[.dir ['/', 'a']], true, 2, true⟩ ⟨exFs, 5, LoaderP.LState.init 2⟩
+      [.loadRewrite { filename := ['t'] } 70 false, .plain (.load { filename := ['t'] })]).2) =
+    [some (.ok ⟨0, ['/', 'a', '/', 't'], ['t'], 70, 0, 0⟩), some (.ok ⟨1, ['/', 'a', '/', 't'], ['t'], 70, 0, 0⟩)] := by decide
+
+end LoaderPath
 
 end Genshi.Props.C15
